@@ -13,6 +13,8 @@ Tie:    (A) model stream: evaluate_mapping on a generated mapping and on the sam
 """
 from __future__ import annotations
 
+import math
+
 import copy
 from fractions import Fraction
 
@@ -186,7 +188,7 @@ def mapper_stream(ctx: Ctx):
                        "{2^-10, 0.3, 1/7, 2.5, 3, 2^20, 1e9}, n ∈ {2,3,7}; non-trivial = base spec has a mapping and a front with ≥ 2 points")
     ctx.cov["tolerance"]["mapper optimum (float32 tables)"] = REL
     ctx.assumptions += ["float32 accumulation: scaled optimum compared with relative tolerance %g" % REL]
-    n = 40 if ctx.thorough else 10
+    n = 40 if ctx.thorough else 4
     jobs = []
     for i in range(n):
         p = ML.gen_params(ctx.rng)
@@ -195,11 +197,15 @@ def mapper_stream(ctx: Ctx):
         kind = ["energy", "throughput", "wl_instances", "einsum_instances"][i % 4]
         k = ctx.rng.choice(KS) if kind in ("energy", "throughput") else Fraction(ctx.rng.choice([2, 3, 7]))
         jobs.append((p, kind, k))
-    results = ML.pool_map(work, jobs, workers=8)
+    results = ML.pool_map(work, jobs, workers=4)
     drv = ctx.driver()
 
     def eq_scaled(a, b, k):  # b == a*k ?
-        v = drv.ask("C19", {"op": "eqScaled", "a": ML.to_int_vec([a])[0], "b": ML.to_int_vec([b])[0],
+        # exact integers on a common scale (the relation is scale-invariant); a fixed scale such as 2^20 would truncate
+        # latencies like 1.68e-7 (throughput × 1e9) to 0 and raise a false alarm
+        fa, fb = Fraction(a), Fraction(b)
+        D = math.lcm(fa.denominator, fb.denominator)
+        v = drv.ask("C19", {"op": "eqScaled", "a": int(fa * D), "b": int(fb * D),
                             "k_num": k.numerator, "k_den": k.denominator, "tol_num": 1, "tol_den": 10000})
         if v is not True and v is not False:
             raise RuntimeError(f"driver: {v}")
